@@ -167,11 +167,15 @@ class Driver:
         d["line"] = lines[k]
         return [res[i] for i in range(k)], d, k
 
+    MAX_DEATHS = 25      # a change that makes trxcon die on every request must not cost one process per request
+
     def batch(self, lines, restart=True):
-        """Results for all lines; after a death the rest runs in a new process (its instance is fresh)."""
+        """Results for all lines; after a death the rest runs in a new process (its instance is fresh).
+        After MAX_DEATHS deaths in one batch the remaining lines are not run ({"skipped": True})."""
         lines = [l for l in lines]
         out = []
         pos = 0
+        deaths = 0
         while pos < len(lines):
             done, death, k = self._run(lines[pos:])
             out += done
@@ -180,7 +184,8 @@ class Driver:
             death["index"] = pos + k
             out.append(death)
             pos += k + 1
-            if not restart:
+            deaths += 1
+            if not restart or deaths >= self.MAX_DEATHS:
                 out += [{"skipped": True} for _ in lines[pos:]]
                 break
         return out
@@ -195,6 +200,7 @@ class Driver:
                 owner.append(ci)
         results = [[] for _ in cases]
         pos = 0
+        deaths = 0
         while pos < len(flat):
             done, death, k = self._run(flat[pos:])
             for j, r in enumerate(done):
@@ -209,6 +215,11 @@ class Driver:
             while pos < len(flat) and owner[pos] == ci:
                 results[ci].append({"skipped": True})
                 pos += 1
+            deaths += 1
+            if deaths >= 4 * self.MAX_DEATHS:
+                while pos < len(flat):
+                    results[owner[pos]].append({"skipped": True})
+                    pos += 1
         return results
 
 
